@@ -488,6 +488,9 @@ func SortedKeys(m map[string]int) []string {
 
 // isLocalAddr reports whether the address is inside a function-local
 // allocation (varargs arrays, local structs).
+// IsLocalAddr is exported for rule code.
+func IsLocalAddr(v ssa.Value) bool { return isLocalAddr(v) }
+
 func isLocalAddr(v ssa.Value) bool {
 	for i := 0; i < 8; i++ {
 		switch x := v.(type) {
